@@ -63,7 +63,7 @@ PROPS = {
                         LANM + "_LanProtocol._flush", V3 + ".write", LANC + ".authenticate", DEVB + ".authenticate"], "level": "proof"},
     "C07": {"targets": [V3 + ".__init__", LANM + "_LanProtocol.__init__", V3 + ".write", LANM + "_LanProtocol.write", V3 + ".authenticate", V3 + ".authenticated", LANM + "_LanProtocol.alive",
                         LANC + "._alive", LANC + "._connect", LANC + "._disconnect", LANC + ".authenticate", LANC + ".send"], "level": "proof"},
-    "C08": {"targets": [LANC + ".send", LANC + ".authenticate", LANC + "._connect", LANC + "._disconnect", LANC + "._read",
+    "C08": {"targets": [LANC + ".send", LANC + ".authenticate", LANC + "._connect", LANC + "._disconnect", LANC + "._read", V3 + ".read", LANM + "_LanProtocol.read",
                         LANC + "._read_available", DEVB + "._send_command#transport", "msmart.device.AC.device.AirConditioner.refresh#no_valid_response"],
             "level": "proof"},
     "C09": {"targets": [LANM + "_Packet.decode", V3 + "._process_packet", V3 + "._decode_encrypted_response", V3 + "._get_local_key",
@@ -94,7 +94,8 @@ PROPS = {
                         AC + "._send_command_get_response_with_id", AC + ".refresh", AC + ".apply", AC + "._apply_properties",
                         AC + ".get_capabilities", AC + ".toggle_display", AC + ".start_self_clean"],
             "level": "proof"},
-    "C15": {"targets": [CMD + "CapabilitiesResponse._parse_capabilities#wf", CMD + "CapabilitiesResponse.merge",
+    "C15": {"targets": [CMD + "CapabilitiesResponse.fan_silent", CMD + "CapabilitiesResponse.fan_low", CMD + "CapabilitiesResponse.fan_medium", CMD + "CapabilitiesResponse.fan_high", CMD + "CapabilitiesResponse.fan_auto",
+                        CMD + "CapabilitiesResponse._parse_capabilities#wf", CMD + "CapabilitiesResponse.merge",
                         AC + ".get_capabilities", AC + "._update_capabilities"],
             "level": "proof"},
     "C16": {"targets": [CMD + "PropertyId.encode", CMD + "PropertyId.decode", "C16.read_back", "C16.at_most_one_breeze_mode",
